@@ -50,11 +50,20 @@ Theorem C15_batch_total : forall st mtu,
 Proof. exact round_total. Qed.
 Print Assumptions C15_batch_total.
 
-(* an explicit yield starts a new batch *)
-Theorem C15_yield_new_batch : forall st mtu q,
-  cs_cur st = None -> cs_queue st = [] :: q -> round st mtu = RRound [] false (mkcs None q).
+(* a forced message break (yield) ends the current DeviceServiceInfo with IsMoreServiceInfo set once the message holds an
+   entry; at the very start of a message there is nothing to separate and the round goes on as if it were not there
+   (nothing is dropped) *)
+Theorem C15_yield_ends_message : forall fuel st max_read mtu acc q,
+  cs_cur st = None -> cs_queue st = [] :: q -> max_read <> mtu ->
+  round_loop (S fuel) st max_read mtu acc = RRound (rev acc) true (mkcs None q).
+Proof. exact yield_ends_message. Qed.
+Print Assumptions C15_yield_ends_message.
+
+Theorem C15_leading_yield_skipped : forall st mtu q,
+  cs_cur st = None -> cs_queue st = [] :: q -> round st mtu = round (mkcs None q) mtu.
 Proof. exact yield_round. Qed.
-Print Assumptions C15_yield_new_batch.
+Print Assumptions C15_leading_yield_skipped.
+
 
 (* non-vacuity: three devmod messages are a well-formed state and drain completely under an awkward schedule *)
 Example C15_example_wf : wf_state ex_st.
